@@ -217,22 +217,30 @@ func (g *Generator) convertScalarField(field *protogen.Field) *base.SchemaProxy 
 	// Add field examples if available
 	if examples := annotations.GetFieldExamples(field); len(examples) > 0 {
 		// Set the first example as the default example
-		schema.Example = &yaml.Node{
-			Kind:  yaml.ScalarNode,
-			Value: examples[0],
-		}
+		schema.Example = exampleNode(examples[0])
 
 		// Add all examples using OpenAPI 3.1 examples array format
 		schema.Examples = make([]*yaml.Node, len(examples))
 		for i, example := range examples {
-			schema.Examples[i] = &yaml.Node{
-				Kind:  yaml.ScalarNode,
-				Value: example,
-			}
+			schema.Examples[i] = exampleNode(example)
 		}
 	}
 
 	return base.CreateSchemaProxy(schema)
+}
+
+// exampleNode wraps an example value in a YAML scalar node. An empty example is tagged as a
+// string explicitly: an untagged empty scalar has no YAML representation and makes the
+// document renderer panic.
+func exampleNode(value string) *yaml.Node {
+	node := &yaml.Node{
+		Kind:  yaml.ScalarNode,
+		Value: value,
+	}
+	if value == "" {
+		node.Tag = "!!str"
+	}
+	return node
 }
 
 // convertEnumField converts a protobuf enum field to an OpenAPI schema.
